@@ -122,6 +122,14 @@ def special_points(rng, basis, n):
         else:
             p = [exact.dy(cg.grid_coord(rng, 3.0, 5)) for _ in range(3)]
         pts.append(p)
+    if n >= 2 and rng.random() < 0.5:
+        # two DISTINCT points 3e-7 bohr apart (the two ends of a finite-difference step, overlapping atomic grids), and an
+        # exact repetition of a point: every point is answered for itself
+        from fractions import Fraction
+        q = list(pts[0])
+        q[rng.randrange(3)] += Fraction(5, 2 ** 24)
+        pts.append(q)
+        pts.append(list(pts[-2 if len(pts) > 2 else 0]))
     return pts
 
 
